@@ -37,6 +37,7 @@ func c18(c *Ctx) {
 	bufferOwnershipRule(c, "R7")
 	c18R8(c)
 	c18R9(c)
+	c18R10(c)
 }
 
 // c18R8: the varint reader accepts everything the writer emits.
